@@ -380,7 +380,7 @@ def eval_edge(case, ctx):
         ctx.fail("edge-result-shape:" + ename, case, why); bad = True
     if bad or not two_way:
         ctx.case(nontrivial=nt, cls=cls + ["edge-roundtrip:" + ("n/a(one-way)" if not two_way else "skipped(result malformed)")],
-                 sample={"edge": ename, "mu": mu, "L": idx, "deg": deg, "src": case["kind"], "nnz": n_nz} if nt and deg >= 5 else None)
+                 sample={"edge": ename, "mu": mu, "L": idx, "deg": deg, "src": case["kind"], "nnz": n_nz, "source_digest": digest(P)} if nt and deg >= 5 else None)
         return
     # ---- (2) mutual inverse
     if not finite:
@@ -414,7 +414,7 @@ def eval_edge(case, ctx):
             if worst is None or err / bound > worst[0]:
                 worst = (err / bound, d, k, P[d][i], Bk[d][i], err, bound)
     ctx.case(nontrivial=nt, cls=cls + ["edge-roundtrip:checked", "edge-map:" + tcls],
-             sample={"edge": ename, "mu": mu, "L": idx, "deg": deg, "src": case["kind"], "nnz": n_nz} if nt and deg >= 5 else None)
+             sample={"edge": ename, "mu": mu, "L": idx, "deg": deg, "src": case["kind"], "nnz": n_nz, "source_digest": digest(P)} if nt and deg >= 5 else None)
     if worst:
         _, d, k, a, b, err, bound = worst
         ctx.fail("not-inverse:%s->%s" % (src, dst) + "->" + src, case,
@@ -709,12 +709,12 @@ def run(ctx):
         _probes(ctx)
     if ctx.shard == 1 % ctx.nshards:
         _replay_regressions(ctx)
-    n_edge = ctx.scale(200, 1500)
+    n_edge = ctx.scale(140, 1500)
     for (src, dst) in E:            # every edge, in every run
         explore(ctx, "edge:%s->%s" % (src, dst), edge_case(ctx, src, dst), eval_edge, max(1, ctx.share(n_edge)), shrink_calls=ctx.scale(25, 120))
-    explore(ctx, "polycoord", polycoord_case(ctx), eval_polycoord, ctx.share(ctx.scale(1200, 20000)), shrink_calls=ctx.scale(40, 300))
-    explore(ctx, "pointmap", pointmap_case(), eval_pointmap, ctx.share(ctx.scale(6000, 200000)), shrink_calls=ctx.scale(200, 2000))
-    explore(ctx, "order", order_case(ctx), eval_order, ctx.share(ctx.scale(80, 500)), shrink_calls=ctx.scale(6, 40))
+    explore(ctx, "polycoord", polycoord_case(ctx), eval_polycoord, ctx.share(ctx.scale(800, 20000)), shrink_calls=ctx.scale(40, 300))
+    explore(ctx, "pointmap", pointmap_case(), eval_pointmap, ctx.share(ctx.scale(4000, 200000)), shrink_calls=ctx.scale(200, 2000))
+    explore(ctx, "order", order_case(ctx), eval_order, ctx.share(ctx.scale(48, 500)), shrink_calls=ctx.scale(6, 40))
     ctx.exhaustive = None
 
 
